@@ -11,7 +11,7 @@ from record import Session, relabel
 def spec_enumerated(maxn, palette, limit=None, seed=0):
     """every molecule (and relabelling generator) of the bounded model MC_Tucan, as printed by TLC itself"""
     cfg = f"""SPECIFICATION ESpec
-CONSTANTS RLimit = 99 BFLimit = 6 MaxN = {maxn} AnyLabelling = FALSE
+CONSTANTS RLimit = 99 BFLimit = 6 MaxN = {maxn} AnyLabelling = FALSE Adapter = "apply"
   Palette <- {palette}
 CONSTRAINT EmitInputs
 CHECK_DEADLOCK FALSE
@@ -131,6 +131,8 @@ def molecule_pool(rng, tier, corpus_cap=40, n_random=60, nmax=8, corpus_n=12):
         pool.append((name, g))
     for i in range(n_random):
         pool.append((f"rnd{i}", gen.random_molecule(rng, nmax)))
+    pool += gen.hub_pairs(rng, 10 if tier == "quick" else 120)
+    pool += gen.multi_labelled(rng, 4 if tier == "quick" else 40)
     cs = gen.corpus(corpus_cap)
     rng.shuffle(cs)
     pool += cs[:corpus_n]
@@ -191,6 +193,10 @@ def special_molecules():
     # more than a hundred atoms (three-digit indices), unsymmetrical
     out.append(("chain105", M([("O", 0, 0, 0)] + [("C", 0, 0, 0)] * 103 + [("N", 15, 0, 0)], [(i, i + 1, 1) for i in range(104)])))
     out.append(("bigmass", M([("U", 65536, 0, 0), ("U", 65535, 0, 0), ("H", 99999, 1, 0)], [(0, 1, 1), (1, 2, 1)])))
+    out.append(("2HCl", M([("H", 0, 0, 0), ("Cl", 0, 0, 0), ("H", 0, 0, 0), ("Cl", 0, 0, 0)], [(0, 1, 1), (2, 3, 1)])))
+    out.append(("MeNH2.2HCl", M([("C", 0, 0, 0), ("N", 0, 0, 0)] + [("H", 0, 0, 0)] * 5 + [("H", 0, 0, 0), ("Cl", 0, 0, 0), ("Cl", 0, 0, 0), ("H", 0, 0, 0)],
+                                [(0, 1, 1), (0, 2, 1), (0, 3, 1), (0, 4, 1), (1, 5, 1), (1, 6, 1), (7, 8, 1), (9, 10, 1)])))
+    out.append(("2CO+2H2", M([("C", 0, 0, 0), ("O", 0, 0, 0), ("O", 0, 0, 0), ("C", 0, 0, 0)] + [("H", 0, 0, 0)] * 4, [(0, 1, 3), (3, 2, 3), (4, 5, 1), (6, 7, 1)])))
     hub = [("Fe", 0, 0, 0)] + [("C", 0, 0, 0)] * 12
     out.append(("hub12", M(hub, [(0, i, 1) for i in range(1, 13)] + [(i, i + 1, 1) for i in range(1, 12)])))
     return out
